@@ -361,19 +361,36 @@ Definition check_expr (e : expr) : option string :=
     else Some ("can simplify `" ++ print_expr e ++ "` to `" ++ print_expr y ++ "`")
   else None.
 
-(* ast.Inspect with SkipChilds after a warning; messages in emission order *)
-Fixpoint walk_exprs (e : expr) {struct e} : list string :=
-  match check_expr e with
+(* go/types leaves the operands of a *constant* boolean expression untyped: in `(1 < 2) && !(3 <= 4)` only
+   the outermost expression gets the type bool (from its context), the sub-expressions are "untyped bool",
+   which VisitExpr's typep.HasBoolKind test rejects (it returns without SkipChilds).  A constant operand of a
+   non-constant parent (`k && 1 < 2`) is converted to bool and is visited normally; go/types propagates a
+   context type through parentheses but not into a constant unary/binary expression (updateExprType). *)
+Fixpoint is_const_expr (e : expr) : bool :=
+  match e with
+  | ELit _ _ _ => true
+  | EParen x | EUnary _ x => is_const_expr x
+  | EBinary _ l r => is_const_expr l && is_const_expr r
+  | _ => false
+  end.
+
+(* ast.Inspect with SkipChilds after a warning; messages in emission order.
+   [pc]: the parent expression is a constant (so a constant e is untyped) *)
+Fixpoint walk_exprs_from (pc : bool) (e : expr) {struct e} : list string :=
+  match (if pc && is_const_expr e then None else check_expr e) with
   | Some m => [m]
   | None =>
       match e with
       | EIdent _ _ | ELit _ _ _ => []
-      | EParen x | EUnary _ x | ESliceAll x => walk_exprs x
-      | EBinary _ l r => (walk_exprs l ++ walk_exprs r)%list
-      | ECall _ args => flat_map walk_exprs args
-      | EIndex a i => (walk_exprs a ++ walk_exprs i)%list
+      | EParen x => walk_exprs_from pc x     (* the context's type is propagated through parentheses *)
+      | EUnary _ x => walk_exprs_from (is_const_expr e) x
+      | ESliceAll x => walk_exprs_from false x
+      | EBinary _ l r => (walk_exprs_from (is_const_expr e) l ++ walk_exprs_from (is_const_expr e) r)%list
+      | ECall _ args => flat_map (walk_exprs_from false) args
+      | EIndex a i => (walk_exprs_from false a ++ walk_exprs_from false i)%list
       end
   end.
+Definition walk_exprs (e : expr) : list string := walk_exprs_from false e.
 
 (* ---- the checker before the fixes 546af6d / 7e0e8ca, and the guards it lacked ---- *)
 Definition incdec_prefix (_ : bool) (e : expr) : option expr := remove_incdec_prefix e.
